@@ -65,6 +65,10 @@ struct cfg
 #elif C24_CFG == 8
     using type = ll<>;                                                                              // all defaults
     static constexpr bool vmap = false, start_stop = false, var_interval = false; static constexpr unsigned interval_ms = 100;
+#elif C24_CFG == 9
+    // not a multiple of 0.625 ms
+    using type = ll< bll::variable_advertising_channel_map, bll::no_auto_start_advertising, bll::advertising_interval< 21 > >;
+    static constexpr bool vmap = true, start_stop = true, var_interval = false; static constexpr unsigned interval_ms = 21;
 #else
 #error unknown C24_CFG
 #endif
@@ -83,6 +87,8 @@ template < class L > auto do_remove( L& l, unsigned c, int ) -> decltype( l.remo
 template < class L > void do_remove( L&, unsigned, long ) {}
 template < class L > auto do_interval( L& l, unsigned ms, int ) -> decltype( l.advertising_interval_ms( ms ), void() ) { l.advertising_interval_ms( ms ); }
 template < class L > void do_interval( L&, unsigned, long ) {}
+template < class L > auto do_interval_dt( L& l, unsigned us, int ) -> decltype( l.advertising_interval( bll::delta_time( us ) ), void() ) { l.advertising_interval( bll::delta_time( us ) ); }
+template < class L > void do_interval_dt( L&, unsigned, long ) {}
 
 const char* const map_names[ 8 ] = { "{}", "{37}", "{38}", "{37,38}", "{39}", "{37,39}", "{38,39}", "{37,38,39}" };
 
@@ -106,7 +112,8 @@ struct World
 
     enum { ev_run, ev_timeout, ev_start, ev_stop, ev_start1, ev_start2,
            ev_remove37, ev_remove38, ev_remove39, ev_add37, ev_add38, ev_add39,
-           ev_int20, ev_int100, ev_int10240, ev_int19, ev_int10241, ev_count };
+           ev_int20, ev_int100, ev_int10240, ev_int19, ev_int10241,
+           ev_int21, ev_int33, ev_int1001, ev_int_dt33333us, ev_count };       // values that are no multiple of 0.625 ms / 1 ms
 
     void init()
     {
@@ -125,7 +132,8 @@ struct World
     {
         static const char* const n[] = { "run()", "adv_timeout", "start_advertising()", "stop_advertising()", "start_advertising(1)", "start_advertising(2)",
             "remove_channel(37)", "remove_channel(38)", "remove_channel(39)", "add_channel(37)", "add_channel(38)", "add_channel(39)",
-            "advertising_interval_ms(20)", "advertising_interval_ms(100)", "advertising_interval_ms(10240)", "advertising_interval_ms(19)", "advertising_interval_ms(10241)" };
+            "advertising_interval_ms(20)", "advertising_interval_ms(100)", "advertising_interval_ms(10240)", "advertising_interval_ms(19)", "advertising_interval_ms(10241)",
+            "advertising_interval_ms(21)", "advertising_interval_ms(33)", "advertising_interval_ms(1001)", "advertising_interval(delta_time(33333us))" };
         return n[ ev ];
     }
 
@@ -186,7 +194,7 @@ struct World
                     c.fail( "when:delay-above-10ms", mc::fmt( "next advertising event scheduled after %uus, advertising interval is %uus (+ at most 10ms)", when, ref.interval_us ) );
                 else
                 {
-                    c.cls( mc::fmt( "inter %s interval=%ums", map_names[ ref.map ], ref.interval_us / 1000 ) );
+                    c.cls( mc::fmt( "inter %s interval=%uus", map_names[ ref.map ], ref.interval_us ) );
                     c.cls( mc::fmt( "delay=%uus", when - ref.interval_us ) );
                 }
             }
@@ -220,8 +228,8 @@ struct World
         {
             if ( !cfg::vmap ) return false;
             if ( advertising() ) return false;                           // "It is not supported to change the channel map during advertising."
-            const unsigned bit = 1u << ( ( ev - ev_remove37 ) % 3 );
-            if ( ev <= ev_remove39 ? !( ref.map & bit ) : ( ref.map & bit ) != 0 ) return false;   // no-ops add nothing
+            // removing a disabled / adding an enabled channel is allowed and must not change the map (reference: set
+            // difference / union); with the map already as requested these steps preserve the reference state
         }
         if ( ev >= ev_int20 && !cfg::var_interval ) return false;
 
@@ -245,6 +253,10 @@ struct World
             case ev_int10240: do_interval( l, 10240, 0 ); break;
             case ev_int19:    do_interval( l, 19, 0 ); break;
             case ev_int10241: do_interval( l, 10241, 0 ); break;
+            case ev_int21:    do_interval( l, 21, 0 ); break;
+            case ev_int33:    do_interval( l, 33, 0 ); break;
+            case ev_int1001:  do_interval( l, 1001, 0 ); break;
+            case ev_int_dt33333us: do_interval_dt( l, 33333, 0 ); break;
             }
         } );
         if ( !crash.empty() ) { c.fail( "crash:" + crash, describe( ev ) ); return true; }
@@ -304,6 +316,10 @@ struct World
         case ev_int20:    ref.interval_us = 20000; break;
         case ev_int100:   ref.interval_us = 100000; break;
         case ev_int10240: ref.interval_us = 10240000; break;
+        case ev_int21:    ref.interval_us = 21000; break;
+        case ev_int33:    ref.interval_us = 33000; break;
+        case ev_int1001:  ref.interval_us = 1001000; break;
+        case ev_int_dt33333us: ref.interval_us = 33333; break;
         default: break;   // out of range values are documented to be ignored
         }
 
